@@ -50,6 +50,14 @@ impl World {
             )
             .build();
         let script = manager.verif_register_scripted();
+        // LISTEN0 of coq/Mgr/Model.v: /ip4/<private 1>/tcp/7000
+        {
+            let mut l = Multiaddr::empty();
+            for c in [(0u64, 2 * 65536 + 1), (5u64, 7000u64)] {
+                l = l.with(crate::c10::protocol_of_peers(&[], c).unwrap());
+            }
+            manager.register_listen_address(l);
+        }
         let service = manager.register_protocol(
             ProtocolName::from("/verif/1"),
             Vec::new(),
@@ -91,6 +99,8 @@ fn ret_code(r: &Result<(), Error>) -> u64 {
         Err(Error::TriedToDialSelf) => 2,
         Err(Error::AlreadyConnected) => 3,
         Err(Error::NoAddressAvailable(_)) => 4,
+        Err(Error::AddressError(litep2p::error::AddressError::PeerIdMissing)) => 6,
+        Err(Error::TransportNotSupported(_)) => 7,
         Err(_) => 5,
     }
 }
@@ -108,6 +118,8 @@ enum Ev {
     AcceptDone(u64, bool),
     Closed(usize, u64),
     AllocConn,
+    /// dial_address with an arbitrary multiaddress in the abstract grammar of C10: (tag, arg) pairs
+    DialShape(Vec<(u64, u64)>),
 }
 
 impl Ev {
@@ -124,6 +136,12 @@ impl Ev {
             Ev::AcceptDone(c, ok) => out.extend([8, c, ok as u64]),
             Ev::Closed(p, c) => out.extend([9, p as u64, c]),
             Ev::AllocConn => out.push(10),
+            Ev::DialShape(ref a) => {
+                out.extend([11, a.len() as u64]);
+                for (t, x) in a {
+                    out.extend([*t, *x]);
+                }
+            }
         }
     }
 
@@ -142,6 +160,17 @@ impl Ev {
             8 => (Ev::AcceptDone(g(1)?, g(2)? != 0), 3),
             9 => (Ev::Closed(pe(g(1)?), g(2)?), 3),
             10 => (Ev::AllocConn, 1),
+            11 => {
+                let n = g(1)? as usize;
+                if n > 8 {
+                    return None;
+                }
+                let mut a = Vec::new();
+                for k in 0..n {
+                    a.push((g(2 + 2 * k)?, g(3 + 2 * k)?));
+                }
+                (Ev::DialShape(a), 2 + 2 * n)
+            }
             _ => return None,
         };
         *i += n;
@@ -204,6 +233,17 @@ fn apply(rt: &Runtime, w: &mut World, ev: &Ev, out: &mut Vec<u64>) -> StepObs {
             }
             Ev::Closed(p, c) => w.manager.verif_report_closed(w.peers[*p], *c as usize),
             Ev::AllocConn => ret = 101 + w.manager.verif_alloc_connection_id() as u64,
+            Ev::DialShape(a) => {
+                let mut m = Multiaddr::empty();
+                for c in a {
+                    match crate::c10::protocol_of_peers(&w.peers, *c) {
+                        Some(p) => m = m.with(p),
+                        None => return,
+                    }
+                }
+                let r = rt.block_on(w.manager.dial_address(m));
+                ret = ret_code(&r) + 1;
+            }
         }
         mevs = w.manager.verif_drain();
     }));
@@ -330,6 +370,7 @@ impl Contract {
         let peer_of = |ev: &Ev, me: &Contract, c: u64| -> usize {
             match ev {
                 Ev::DialPeer(p, _) | Ev::DialAddr(p, _) => *p,
+                Ev::DialShape(a) => a.last().map(|c| c.1 as usize).unwrap_or(1),
                 Ev::TrEstablished(p, _, _, _) => *p,
                 _ => me
                     .owed_open
@@ -378,6 +419,52 @@ fn pick<T: Clone>(rng: &mut Rng, v: &[T]) -> Option<T> {
     }
 }
 
+/// Multiaddress shapes handed to dial_address: the accepted ones and near misses of every kind.
+fn gen_shape(rng: &mut Rng) -> Vec<(u64, u64)> {
+    let host = |rng: &mut Rng| -> (u64, u64) {
+        match rng.below(7) {
+            0 => (0, 0),                                   // 0.0.0.0
+            1 => (0, 3 * 65536 + rng.range(1, 40)),        // global ip4
+            2 => (0, 2 * 65536 + rng.range(1, 3)),         // private ip4 (id 1 = the listen address)
+            3 => (1, 3 * 65536 + rng.range(1, 40)),        // global ip6
+            4 => (2, rng.range(1, 5)),
+            5 => (3, rng.range(1, 5)),
+            _ => (4, rng.range(1, 5)),
+        }
+    };
+    let p2p = |rng: &mut Rng| -> (u64, u64) { (10, rng.below(NPEERS as u64)) };
+    let tcp = |rng: &mut Rng| -> (u64, u64) { (5, rng.pick(&[7000u64, 30333, 1, 65535])) };
+    let other = |rng: &mut Rng| -> (u64, u64) { (11, rng.below(8)) };
+    match rng.below(16) {
+        0..=3 => vec![host(rng), tcp(rng), p2p(rng)],
+        4 => vec![host(rng), tcp(rng), (7 + rng.below(2), 0), p2p(rng)],
+        5 => vec![host(rng), tcp(rng)],
+        6 => vec![host(rng), tcp(rng), p2p(rng), p2p(rng)],
+        7 => vec![host(rng), tcp(rng), p2p(rng), other(rng), p2p(rng)],
+        8 => vec![host(rng), tcp(rng), (7, 0), other(rng), p2p(rng)],
+        9 => vec![tcp(rng), host(rng), p2p(rng)],
+        10 => vec![p2p(rng)],
+        11 => vec![other(rng), tcp(rng), p2p(rng)],
+        12 => vec![host(rng), (6, 30333), (9, 0), p2p(rng)],
+        13 => vec![host(rng), p2p(rng)],
+        14 => vec![(0, 2 * 65536 + 1), (5, 7000), (10, 0)],
+        _ => {
+            let n = rng.range(0, 5);
+            let mut v = Vec::new();
+            for _ in 0..n {
+                v.push(match rng.below(5) {
+                    0 => host(rng),
+                    1 => tcp(rng),
+                    2 => p2p(rng),
+                    3 => (7, 0),
+                    _ => other(rng),
+                });
+            }
+            v
+        }
+    }
+}
+
 fn gen_event(rng: &mut Rng, k: &Contract, noisy: bool, settle: bool) -> Option<Ev> {
     let rp = |rng: &mut Rng| -> usize {
         if rng.chance(4) {
@@ -400,6 +487,9 @@ fn gen_event(rng: &mut Rng, k: &Contract, noisy: bool, settle: bool) -> Option<E
             7 => Ev::Closed(rp(rng), c),
             _ => Ev::TrPendingInbound(c),
         });
+    }
+    if !settle && rng.chance(9) {
+        return Some(Ev::DialShape(gen_shape(rng)));
     }
     for _ in 0..20 {
         let roll = if settle { 28 + rng.below(60) } else { rng.below(100) };
